@@ -6,6 +6,7 @@ import RV.Driver.Util
   counts are decimal.
 
     force  N G soft2 (m x y z)*N                          -> 3N   accBasicAll on Float
+    forceS/var1S/ad1S/ad2S  N_active tptype N G ...        -> 3N   the same with N_active < N (accBasicSplit/accVar1Split)
     var1   N G (m x y z)*N (dm dx dy dz)*N                -> 3N   accVar1 on Float (hand-derived loops)
     ad1    N G (m x y z)*N (dm dx dy dz)*N                -> 3N   ε-part of accBasicAll on Dual Float
     var1tp G x y z ddx ddy ddz M (m x y z)*M              -> 3    tpVar1
@@ -80,6 +81,32 @@ def step (toks : List String) : String :=
     let all := gps rest
     let ps := (List.zipWith gpD (all.take n) (all.drop n))
     v3s ((accBasicAll (cD (fl g)) (cD 0.0) (Dual.sqrtLift sqrtF) ps).map (fun v => ⟨v.x.eps, v.y.eps, v.z.eps⟩))
+  | "ad1soft" :: n :: g :: s2 :: rest =>
+    let n := n.toNat!
+    let all := gps rest
+    let ps := (List.zipWith gpD (all.take n) (all.drop n))
+    v3s ((accBasicAll (cD (fl g)) (cD (fl s2)) (Dual.sqrtLift sqrtF) ps).map (fun v => ⟨v.x.eps, v.y.eps, v.z.eps⟩))
+  | "forceS" :: na :: tp :: n :: g :: s2 :: rest =>
+    let all := (gps rest).take n.toNat!
+    v3s (accBasicSplit (fl g) (fl s2) sqrtF (tp == "1") (all.take na.toNat!) (all.drop na.toNat!))
+  | "var1S" :: na :: tp :: n :: g :: rest =>
+    let n := n.toNat!
+    let all := gps rest
+    let ps := (all.take n).zip (all.drop n)
+    v3s (accVar1Split (fl g) sqrtF (tp == "1") (ps.take na.toNat!) (ps.drop na.toNat!))
+  | "ad1S" :: na :: tp :: n :: g :: rest =>
+    let n := n.toNat!
+    let all := gps rest
+    let ps := (List.zipWith gpD (all.take n) (all.drop n))
+    v3s ((accBasicSplit (cD (fl g)) (cD 0.0) (Dual.sqrtLift sqrtF) (tp == "1") (ps.take na.toNat!) (ps.drop na.toNat!)).map
+      (fun v => ⟨v.x.eps, v.y.eps, v.z.eps⟩))
+  | "ad2S" :: na :: tp :: n :: g :: rest =>
+    let n := n.toNat!
+    let all := gps rest
+    let ps := (zip4 (all.take n) ((all.drop n).take n) ((all.drop (2*n)).take n) (all.drop (3*n))).map
+      (fun q => gpD2 q.p q.da q.db q.dd)
+    v3s ((accBasicSplit (cD2 (fl g)) (cD2 0.0) (Dual2.sqrtLift2 sqrtF) (tp == "1") (ps.take na.toNat!) (ps.drop na.toNat!)).map
+      (fun v => ⟨v.x.eps.eps, v.y.eps.eps, v.z.eps.eps⟩))
   | "var1tp" :: g :: x :: y :: z :: dx :: dy :: dz :: _m :: rest =>
     v3s [tpVar1 (fl g) sqrtF (fl x) (fl y) (fl z) (fl dx) (fl dy) (fl dz) (gps rest)]
   | "ad1tp" :: g :: x :: y :: z :: dx :: dy :: dz :: _m :: rest =>
